@@ -35,6 +35,8 @@ namespace verif
         std::size_t overflow_size = 0;
         const void* overflow_ptr  = nullptr;
         std::string outcome; // short label: "ok", "null", "oom", ...
+        bool        terminal = false;     // the history must not be extended behind this operation
+        int         report_state_same = -1; // set by the invalid-pointer handler: was the allocator still unchanged?
         std::vector<violation> violations;
         std::vector<std::string> events; // counters to bump
 
